@@ -33,7 +33,8 @@ ASSUMPTIONS = [
     "80*sp2_tol_clamped*N*(|t|+r_max)*1.89 and are reported under their own margin name",
 ]
 REQUIRED_MONITORS = ["rows", "emo_compared", "dipole_compared", "hf_compared", "translation_pairs", "rows_uhf",
-                     "rows_ion", "rows_excited"]
+                     "rows_ion", "rows_excited", "batchcell_activemix", "batchcell_chargemix", "rows_ground_in_mixed_active_batch",
+                     "gap_vs_alone_compared"]
 CASE_TIMEOUT = 600.0
 BUDGET_S = {"quick": float(os.environ.get("VERIF_BUDGET_QUICK", 200)), "thorough": float(os.environ.get("VERIF_BUDGET_THOROUGH", 1500))}
 
@@ -56,6 +57,63 @@ def _element_cases(g, tier):
     return out
 
 
+def _batch_cells(g, tier):
+    """Named same-species batch cells (both tiers).
+
+    activemix: 3 geometries of one molecule with a PER-MOLECULE active_state tensor {all ground, all excited, mixed
+    incl. ground}, excited states configured, on the non-analytical energy routes (reverse-mode force with
+    scf_backward 1 / 2, energy-only call do_force=False).
+    chargemix: rows of identical species with DIFFERENT molecular charges (RHF: differing by an even number of
+    electrons; UHF: per-row multiplicities); every row is also run alone and its gap compared."""
+    quick = tier == "quick"
+    out = []
+    patterns = {"all0": [0, 0, 0], "allx": [2, 1, 3], "mixed": [0, 2, 1], "mixed2": [2, 0, 3]}
+    plan = [("CH2O", "AM1", "cis", "autodiff-scfb1"), ("CH2O", "AM1", "cis", "energy-only"),
+            ("C2H4", "PM3", "rpa", "energy-only"), ("H2O", "MNDO", "cis", "autodiff-scfb1")]
+    if not quick:
+        plan += [("CH2O", "PM3", "rpa", "autodiff-scfb1"), ("HCN", "AM1", "cis", "autodiff-scfb2"),
+                 ("NH3", "PM6_SP", "cis", "energy-only"), ("CH3OH", "AM1", "cis", "energy-only"),
+                 ("C2H4", "MNDO", "cis", "autodiff-scfb2"), ("HNO", "PM3", "cis", "autodiff-scfb1")]
+    for name, method, xm, call in plan:
+        for pat, vec in patterns.items():
+            if quick and pat == "mixed2" and call != "energy-only":
+                continue
+            out.append({"kind": "batchcell", "cell": "activemix", "mol": name, "method": method,
+                        "conv": [1] if call.endswith("scfb2") else [2], "sp2": None, "uhf": False,
+                        "modes": ["autodiff" if call == "energy-only" else call], "call": call, "layout": "homog",
+                        "orient": {"kind": "generic"}, "sigma": 0.05, "seed": int(g.integers(0, 2**31)),
+                        "charges": [0, 0, 0], "mults": [1, 1, 1], "active_vec": vec, "pattern": pat,
+                        "excited": {"method": xm, "n_states": 4, "active": max(vec)}, "eps": 1e-10})
+    cm = [("H2O", "AM1", [0, 2, -2], None), ("H2O", "PM3", [2, 0], None), ("CH2O", "MNDO", [0, -2, 2], None),
+          ("NH3", "PM6_SP", [2, 0, 0], None), ("H2O", "AM1", [0, 1, -1], [1, 2, 2]), ("CH2O", "PM3", [1, 0, 1], [2, 3, 2])]
+    if not quick:
+        cm += [("HCN", "AM1", [0, 2], None), ("CO", "PM3", [2, 0, -2], None), ("C2H4", "MNDO", [-2, 0, 2], None),
+               ("HF", "PM6_SP", [0, 2], None), ("CH3OH", "AM1", [0, 2, 0], None), ("NH3", "MNDO", [0, 1, 0, -1], [1, 2, 3, 2]),
+               ("H2S", "PM3", [0, 2, -2], None), ("CO2", "AM1", [0, 1, 2], [1, 2, 1])]
+    for name, method, charges, mults in cm:
+        uhf = mults is not None
+        for conv in ([[2], [1]] if not uhf else [[1]]):
+            if quick and conv == [1] and not uhf and name != "H2O":
+                continue
+            out.append({"kind": "batchcell", "cell": "chargemix", "mol": name, "method": method, "conv": conv, "sp2": None,
+                        "uhf": uhf, "modes": ["autodiff"], "call": "force", "layout": "homog",
+                        "orient": {"kind": "generic"}, "sigma": 0.05, "seed": int(g.integers(0, 2**31)),
+                        "charges": list(charges), "mults": list(mults) if uhf else [1] * len(charges), "eps": 1e-10,
+                        "alone": True})
+    return out
+
+
+def _build_batchcell(case):
+    g = np.random.default_rng(case["seed"])
+    Z, X0, _, _ = gen.molecule(case["mol"])
+    rows = []
+    for q, m in zip(case["charges"], case["mults"]):
+        X = gen.distort(X0, g, sigma=case["sigma"])
+        X = X @ gen.generic_rotation(X, g).T
+        rows.append((Z, X + g.uniform(-3, 3, 3), q, m))
+    return rows, list(range(len(rows)))
+
+
 def gen_cases(tier, seed):
     g = gen.rng("C14", tier)
     quick = tier == "quick"
@@ -75,6 +133,9 @@ def gen_cases(tier, seed):
                 c["modes"] = ["autodiff"]
                 cases.append(c)
     cases += _element_cases(g, tier)
+    named = _batch_cells(g, tier)
+    for c in named:
+        c["tier"] = tier
     for i, c in enumerate(cases):
         c["tier"] = tier
         c["eps"] = EPS_CHOICES[int(g.integers(0, len(EPS_CHOICES)))]
@@ -86,7 +147,7 @@ def gen_cases(tier, seed):
         # some cases repeat the call on the SAME Molecule object after moving the atoms (what MD / optimisers do)
         if not c.get("uhf") and c["layout"] != "padded" and int(g.integers(0, 8)) == 0:
             c["repeat"] = {"n": int(g.integers(1, 4)), "kick": [0.01, 0.05, 0.15][int(g.integers(0, 3))]}
-    return cases
+    return named + cases
 
 
 def _settings(case, eps):
@@ -97,9 +158,15 @@ def _settings(case, eps):
 
 def _call(case, S, C, qarg, marg, eps):
     from vlib import run
+    import torch
     with run.quiet():
         mol, es, sett = run.build(S, C, _settings(case, eps), qarg, marg)
-        es(mol)
+        if case.get("active_vec") is not None and np.ndim(S) == 2:
+            mol.active_state = torch.as_tensor(case["active_vec"], dtype=torch.int64)   # per-molecule active states
+        if case.get("call") == "energy-only":
+            es(mol, do_force=False)
+        else:
+            es(mol)
     return mol, es, sett
 
 
@@ -138,7 +205,7 @@ def classify(v, case, repeat_index):
 def run_case(case):
     from vlib import obs14, run
     import torch
-    rows, check = c01.build_rows(case)
+    rows, check = _build_batchcell(case) if case["kind"] == "batchcell" else c01.build_rows(case)
     S, C, Q, M = c01._batch_arrays(case, rows)
     single = len(rows) == 1
     qarg = Q[0] if single else np.asarray(Q, float)
@@ -175,6 +242,36 @@ def run_case(case):
     Etot0 = run.npy(mol.Etot).reshape(-1).copy()
     nc0 = np.asarray(run.npy(es.notconverged), bool).reshape(-1) if getattr(es, "notconverged", None) is not None \
         else np.zeros(len(rows), bool)
+    # ---- chargemix cells: every row also alone ----------------------------------------------
+    if case.get("alone") and not single:
+        gap_b = run.npy(mol.e_gap)
+        Eb = run.npy(mol.Etot).reshape(-1)
+        for r, (Z, X, q, m) in enumerate(rows):
+            sub = dict(case)
+            try:
+                mol1, es1, _ = _call(sub, Z, X, q, m, case["eps"])
+            except Exception as e:
+                obs.setdefault("alone_raised", []).append(repr(e)[:120])
+                continue
+            mon["calls"] += 1
+            nc1 = bool(np.asarray(run.npy(es1.notconverged)).reshape(-1)[0])
+            if nc0[r] or nc1 or abs(float(run.npy(mol1.Etot).reshape(-1)[0]) - Eb[r]) > 1e-7:
+                mon["alone_rows_other_solution_or_unconverged"] = mon.get("alone_rows_other_solution_or_unconverged", 0) + 1
+                continue
+            g1 = np.asarray(run.npy(mol1.e_gap)).reshape(-1)
+            gb = np.asarray(gap_b[r]).reshape(-1)
+            d = float(np.abs(g1 - gb).max()) if g1.size and g1.size == gb.size else None
+            if d is None:
+                continue
+            mon["gap_vs_alone_compared"] = mon.get("gap_vs_alone_compared", 0) + 1
+            rr = d / 1e-6
+            if not (rr <= margins.get("gap_vs_alone", -1.0)):
+                margins["gap_vs_alone"] = rr
+            if not (rr <= 1.0):
+                viol.append({"clause": "gap-batch-vs-alone", "mech": None,
+                             "detail": {"row": r, "species": Z, "coords": X.tolist(), "charge": q, "mult": m,
+                                        "charges_of_batch": case["charges"], "gap_in_batch": gb.tolist(),
+                                        "gap_alone": g1.tolist(), "tol": 1e-6}})
     # ---- repeated calls on the same object ------------------------------------------------
     rep = case.get("repeat")
     if rep:
@@ -254,6 +351,11 @@ def run_case(case):
     state = "S0" if not exc else "%s-S%d/%s" % (exc["method"], exc["active"], case["modes"][0])
     cells.append("/".join([case["method"], spin, state, "conv" + "-".join(str(c) for c in case["conv"]),
                            "sp2" if case.get("sp2") else "diag", case["layout"], "eps%g" % case["eps"]]))
+    if case["kind"] == "batchcell":
+        cells.append("batchcell/%s/%s/%s/%s" % (case["cell"], case["method"], case.get("call"),
+                                                case.get("pattern") or ("uhf" if case.get("uhf") else "rhf")
+                                                + "/q" + ",".join("%+d" % q for q in case["charges"])))
+        mon["batchcell_" + case["cell"]] = 1
     for r in rows:
         for z in set(r[0]):
             cells.append("element/%s/%d" % (case["method"], z))
